@@ -1,5 +1,6 @@
 import Lean.Data.Json
 import Duckling.Model.Compile
+import Duckling.Model.Cli
 /-
   dmodel — JSON-lines driver of the executable model (DESIGN.md §2.5).
   One request per line on stdin, one response per line on stdout.
@@ -139,6 +140,7 @@ def handle (j : Json) : Json :=
     | none => Json.mkObj [("kind", "bad-request")]
     | some s =>
       let file := (getStr? j "file").map pathOf
+      if (parseOpts j).stackLimit == 0 then Json.mkObj [("kind", "oom"), ("why", "a stack limit of 0 disables the limit")] else
       jResult (compile (parseOpts j) fs file s)
   | "compile_file" =>
     match (getStr? j "file").map pathOf with
@@ -205,6 +207,51 @@ def handle (j : Json) : Json :=
       | .cerr k => Json.mkObj [("kind", "cerr"), ("cls", Json.str k.name)]
       | .crash x => Json.mkObj [("kind", "crash"), ("exc", Json.str x)]
       | .oom w => Json.mkObj [("kind", "oom"), ("why", Json.str w)]
+  | "cli" =>
+    -- a sequence of command-line invocations on an abstract file system: `compile` (cliCompile) and edits of the project file
+    let strFiles := fun (key : String) => match j.getObjVal? key with
+      | .ok (Json.obj kvs) => kvs.toList.filterMap fun (k, v) => match v with | Json.str t => some (pathOf k, t.toList) | _ => none
+      | _ => []
+    let jo := fun (o : Opts) => Json.mkObj [
+        ("stack_limit", toJson o.stackLimit), ("include_comments", toJson o.comments),
+        ("flipper_commands", toJson o.flipper), ("supress_command_not_exist", toJson o.suppress),
+        ("use_project_config", toJson o.useProject)]
+    let g : Option Opts := match j.getObjVal? "home_cfg" with
+      | .ok (Json.obj o) => some (parseOpts (Json.mkObj [("opts", Json.obj o)]))
+      | _ => none
+    let fs0 : CliFS := { files := strFiles "pre_files" ++ fs, projCfgs := parseCfgs j, globalCfg := g }
+    let invs : List Json := match j.getObjVal? "invocations" with | .ok (Json.arr a) => a.toList | _ => []
+    let step := fun (acc : CliFS × List Json) (inv : Json) =>
+      let (cfs, outs) := acc
+      match getStr? inv "cmd" with
+      | some "compile" =>
+        let file := pathOf ((getStr? inv "file").getD "")
+        let output := pathOf ((getStr? inv "output").getD "a.txt")
+        let sl : Option Nat := match inv.getObjVal? "stack_limit" with | .ok v => v.getNat?.toOption | _ => none
+        let cm : Option Bool := match inv.getObjVal? "comments" with | .ok (Json.bool b) => some b | _ => none
+        let (cfs', o) := cliCompile cfs file output sl cm
+        let changed := (cfs'.files.filter fun kv => cfs.files.read kv.1 != some kv.2).map fun kv => Json.str (pathStr kv.1)
+        let projAfter : Json := match cfs'.projCfgs.find? (·.1 == parentDir file) with | some (_, c) => jo c.toOpts | none => Json.null
+        let globalAfter : Json := match cfs'.globalCfg with | some o => jo o | none => Json.null
+        let common : List (String × Json) := [("changed", Json.arr changed.toArray), ("projAfter", projAfter), ("globalAfter", globalAfter),
+          ("outText", match cfs'.files.read output with | some t => Json.str (strOf t) | none => Json.null)]
+        let r : Json := match o with
+          | .success w ps => Json.mkObj (([("kind", Json.str "success"), ("warnings", toJson w), ("prints", Json.arr (ps.map jPrint).toArray)] : List (String × Json)) ++ common)
+          | .failure rep => Json.mkObj (([("kind", Json.str "failure"), ("cls", Json.str rep.cls.name), ("trace", Json.arr (rep.trace.map jFrame).toArray),
+              ("prints", Json.arr (rep.prints.map jPrint).toArray)] : List (String × Json)) ++ common)
+          | .crash x => Json.mkObj (([("kind", Json.str "crash"), ("exc", Json.str x)] : List (String × Json)) ++ common)
+          | .oom w => Json.mkObj (([("kind", Json.str "oom"), ("why", Json.str w)] : List (String × Json)) ++ common)
+        (cfs', outs ++ [r])
+      | some "write" =>
+        -- the user edits the project file between two invocations (`cfg` = what the new text denotes)
+        match inv.getObjVal? "cfg", getStr? inv "dir" with
+        | .ok c, some d =>
+          let dir := pathOf d
+          ({ cfs with projCfgs := (cfs.projCfgs.filter (·.1 != dir)) ++ [(dir, parseCfg c)] }, outs ++ [Json.mkObj [("kind", "write")]])
+        | _, _ => (cfs, outs ++ [Json.mkObj [("kind", "unsupported")]])
+      | _ => (cfs, outs ++ [Json.mkObj [("kind", "unsupported")]])
+    let (_, outs) := invs.foldl step (fs0, [])
+    Json.mkObj [("kind", "cli"), ("steps", Json.arr outs.toArray)]
   | _ => Json.mkObj [("kind", "bad-request")]
 
 partial def loop (hin : IO.FS.Stream) (hout : IO.FS.Stream) : IO Unit := do
